@@ -70,6 +70,20 @@ def raised_class(p, module, raise_node, scope=None):
         return ("project", r[1].qualname)
     if r[0] == "func" and r[1].cls is not None:
         return ("project", r[1].cls.qualname)
+    if r[0] == "func" and isinstance(exc, ast.Call):
+        # `raise make_error(...)`: a helper that constructs and returns the exception
+        rets = [x.value for x in walk_no_nested(r[1].node) if isinstance(x, ast.Return) and x.value is not None]
+        kinds = set()
+        for v in rets:
+            c = v.func if isinstance(v, ast.Call) else v
+            nm2 = resolves_to_errors_class(p, r[1].module, c, r[1].node)
+            if nm2:
+                kinds.add(("errors", nm2))
+            else:
+                rr = p.resolve_expr(r[1].module, c, r[1].node)
+                kinds.add(("builtin", rr[1]) if rr and rr[0] == "builtin" else ("unknown", src(c)))
+        if len(kinds) == 1:
+            return kinds.pop()
     if r[0] == "external":
         return ("external", r[1])
     return ("unknown", src(callee))
